@@ -193,6 +193,12 @@ def run_case(case):
         nc = int(rng.integers(0, 4))
         ss = tuple(int(x) for x in rng.integers(2, 4, ns))
         cs = tuple(int(x) for x in rng.integers(2, 4, nc))
+        if case["index"] % 8 == 5:
+            # many categories: hundreds of feasible restricted-state combinations and stored rows
+            ns, nc = 2, int(rng.integers(0, 2))
+            ss = tuple(int(x) for x in rng.integers(14, 21, 2))
+            cs = tuple(int(x) for x in rng.integers(2, 4, nc))
+            add("large_restricted_spaces")
         T = int(rng.integers(1, 5))
         snames = [f"s{i}" for i in range(ns)]
         cnames = [f"c{i}" for i in range(nc)]
